@@ -286,6 +286,45 @@ def findTableKeyFor (b : BidsEnt) : Str :=
   osJoin ((if truthy b.derivative then [sDerivatives, pyStr b.derivative] else []) ++
     [sDesc ++ '-' :: pyStr b.desc ++ '_' :: b.suffix ++ ['.', 't', 's', 'v']])
 
+/-! ### 2b. files of a derivative, descriptors of an fMRIPrep run -/
+
+/-- `pat in s` -/
+def containsSub (pat s : Str) : Bool := (findSub pat s).isSome
+
+/-- `s.endswith(pat)` -/
+def endsWithStr (pat s : Str) : Bool := pat.reverse.isPrefixOf s.reverse
+
+/-- `sorted(paths)` -/
+def sortStr (l : List Str) : List Str := l.mergeSort strLe
+
+def sDotJson : Str := ['.', 'j', 's', 'o', 'n']
+
+/-- `BidsLayout.find_mri_derivative_files` on the list of files (relative paths) of the tree:
+    `glob(derivatives/<derivative>/**/sub-*)` sorted, those containing `desc-<desc>`, without
+    the `.json` side-cars, and — if tasks are given — per task those containing `task-<task>` -/
+def findDerivativeFiles (files : List Str) (derivative desc : Str) (tasks : Option (List Str)) :
+    List Str :=
+  let pre := sDerivatives ++ '/' :: derivative ++ ['/']
+  let cands := sortStr (files.filter (fun f =>
+    pre.isPrefixOf f && (sSub ++ ['-']).isPrefixOf (basename f)))
+  let withDesc := cands.filter (fun f => containsSub (sDesc ++ '-' :: desc) f)
+  let noJson := withDesc.filter (fun f => !(endsWithStr sDotJson f))
+  match tasks with
+  | none => noJson
+  | some ts => ts.flatMap (fun t => noJson.filter (fun f => containsSub (sTask ++ '-' :: t) f))
+
+/-- `FmriprepRun.get_dataset_descriptors` as its docstring demands: the subject and each of
+    session, run, task that the file name carries -/
+def datasetDescriptors (e : BidsEnt) : List (Str × Option Str) :=
+  [(sSub, e.sub)] ++ (if truthy e.ses then [(sSes, e.ses)] else []) ++
+    (if truthy e.run then [(sRun, e.run)] else []) ++
+    (if truthy e.task then [(sTask, e.task)] else [])
+
+/-- the path shown by `FmriprepRun.__repr__`: relative to `derivatives/fmriprep` -/
+def reprPath (relpath : Str) : Str :=
+  let pre : Str := sDerivatives ++ ['/', 'f', 'm', 'r', 'i', 'p', 'r', 'e', 'p', '/']
+  if pre.isPrefixOf relpath then relpath.drop pre.length else relpath
+
 /-! ### 3. Meadows -/
 
 structure MInfo where
@@ -509,7 +548,8 @@ def uniq {β : Type} [BEq β] : List β → List β
   | x :: xs => x :: (uniq xs).filter (fun y => !(y == x))
 
 section design
-variable {α : Type} [Add α] [Sub α] [Mul α] [Div α] [Zero α] [NatCast α] [Max α] [Min α]
+variable {α : Type} [Add α] [Sub α] [Mul α] [Div α] [Neg α] [Zero α] [One α] [NatCast α]
+  [LT α] [DecidableLT α] [LE α] [DecidableLE α] [Max α] [Min α]
 
 def lmax : List α → α
   | [] => 0
@@ -523,7 +563,7 @@ def lmin : List α → α
 
 /-- one column of `(dm - dm.mean(axis=0)) / (dm.max(axis=0) - dm.min(axis=0))` -/
 def normaliseCol (x : List α) : List α :=
-  x.map (fun v => (v - mean x) / (lmax x - lmin x))
+  x.map (fun v => Rsa.Gen.C20.dmNormEntry v (mean x) (lmax x) (lmin x))
 
 /-- the values of a column without a missing value -/
 def allSome : List (Option α) → Option (List α)
@@ -612,6 +652,26 @@ def spmResiduals (n q : Nat) (runs : List (Run α)) (W pinvX X data : Nat → Na
   (fun r p => fdata r p - mmul q X beta r p, beta)
 
 end spm
+
+/-- python `l[i]` for a possibly negative index -/
+def pyIndex {β : Type} (l : List β) (i : Int) : Option β :=
+  if 0 ≤ i then l[i.toNat]? else negIdx l (-i).toNat
+
+/-- `get_info_from_spm_mat`: `'Sn(<run>) <name>'` → run number and beta name -/
+def parseRegName (s : Str) : Except String (Nat × Str) :=
+  match splitOn ' ' s with
+  | s0 :: s1 :: _ =>
+    let d := (s0.drop 3).dropLast
+    if isDigitStr d then .ok (natOfDigits d, s1) else .error "ValueError"
+  | _ => .error "IndexError"
+
+/-- the rows / names selected by the 1-based `reg_of_interest` (index leaf of `get_betas`) -/
+def selectBetas {β : Type} (l : List β) (reg : List Int) : List (Option β) :=
+  reg.map (fun r => pyIndex l (Rsa.Gen.C20.regIndexBetas r))
+
+/-- the same with the index leaf of `get_residuals` -/
+def selectResiduals {β : Type} (l : List β) (reg : List Int) : List (Option β) :=
+  reg.map (fun r => pyIndex l (Rsa.Gen.C20.regIndexResiduals r))
 
 def sFunc : Str := ['f', 'u', 'n', 'c']
 
